@@ -9,7 +9,7 @@ from ..engine import rule
 from ..cxx_ir import CALL_KINDS, CTOR_KINDS, LOOP_KINDS
 from ..descriptors import arm_descriptors
 from ..cfg import cfg_of, const_eval
-from ..py_frontend import call_name, calls_under, walk, is_name, src
+from ..py_frontend import call_name, calls_under, walk, is_name, src, pmatch
 from .common import (short, inst, calls_in, callee_func, member_path, enclosing_map, ancestors,
                      thrown_type, local_inits, strip_casts, kind_switches)
 
@@ -56,25 +56,91 @@ def atoms_of(validations):
     return out
 
 
-def _py_prefix_atoms(mod):
-    """atoms compared by prefix_errors per group of kinds, from its guard expressions"""
+def _conjuncts(e):
+    if isinstance(e, ast.BoolOp) and isinstance(e.op, ast.And):
+        out = []
+        for v in e.values:
+            out += _conjuncts(v)
+        return out
+    return [e]
+
+
+def _py_prefix_facts(mod):
+    """What prefix_errors compares, read structurally (py_frontend.pmatch: local names are
+    metavariables, so the facts survive renaming; the roles are found by what flows where)."""
     fn = mod.func('prefix_errors.helper')
-    guards = []
-    for s in walk(fn):
-        if isinstance(s, ast.If) and any(isinstance(x, ast.Expr) and isinstance(x.value, ast.Yield)
-                                         for x in s.body):
-            guards.append(src(s.test))
-    info = {'type': None, 'keys': None, 'arity': None, 'metadata': None}
+    ps_ = [a.arg for a in fn.args.posonlyargs + fn.args.args]
+    facts = {'fn': fn, 'type': False, 'keys': False, 'arity': False, 'metadata': False,
+             'both_deque': False, 'std': None, 'reorder': False, 'why': {}}
+    stmts = [x for x in walk(fn) if isinstance(x, ast.stmt)]
+    # the two subtree parameters: the ones whose type() is taken, in parameter order
+    typed = [e['x'] for e in (pmatch(x, '?t = type(?x)') for x in stmts) if e is not None]
+    sub = [a for a in ps_ if a in typed]
+    if len(sub) != 2:
+        return facts
+    env = {'ps': sub[0], 'fs': sub[1]}
+
+    def first(pattern, env, nodes=stmts):
+        for x in nodes:
+            e = pmatch(x, pattern, env)
+            if e is not None:
+                return e
+        return None
+    e = first('?pt = type(?ps)', env)
+    e = first('?ft = type(?fs)', e) if e else None
+    if e is None:
+        return facts
+    env = e
+    e = first('?bsd = ?pt in ??S and ?ft in ??S', env)
+    if e is not None:
+        env = e
+        for x in stmts:
+            if pmatch(x, '?bsd = ?pt in ??S and ?ft in ??S', env) is not None:
+                S = x.value.values[0].comparators[0]
+                facts['std'] = mod.top_assign(S.id) if isinstance(S, ast.Name) else S
+    e = first('?bdq = ?pt is deque and ?ft is deque', env)
+    if e is not None:
+        env = e
+        facts['both_deque'] = True
+    # one-level outputs: children and metadata of both sides
+    for side, who in (('p', 'ps'), ('f', 'fs')):
+        for x in stmts:
+            if isinstance(x, ast.Assign) and call_name(x.value) == 'tree_flatten_one_level' and \
+                    x.value.args and is_name(x.value.args[0], env[who]):
+                for t in x.targets:
+                    if isinstance(t, ast.Tuple) and len(t.elts) >= 3 and \
+                            all(isinstance(z, ast.Name) for z in t.elts[:3]):
+                        env[side + 'c'], env[side + 'm'] = t.elts[0].id, t.elts[1].id
+    if not all(k in env for k in ('pc', 'pm', 'fc', 'fm', 'bsd')):
+        return facts
+    guards = [x for x in stmts if isinstance(x, ast.If) and
+              any(isinstance(y, ast.Expr) and isinstance(y.value, ast.Yield) for y in x.body)]
     for g in guards:
-        if 'prefix_tree_type is not full_tree_type' in g:
-            info['type'] = g
-        elif 'keys_set' in g:
-            info['keys'] = g
-        elif 'len(prefix_tree_children) != len(full_tree_children)' in g:
-            info['arity'] = g
-        elif 'prefix_tree_metadata != full_tree_metadata' in g:
-            info['metadata'] = g
-    return fn, info
+        cj = _conjuncts(g.test)
+        if any(pmatch(c, '?pt is not ?ft', env) for c in cj):
+            facts['type'] = any(pmatch(c, 'not ?bsd', env) for c in cj) and len(cj) == 2
+            facts['why']['type'] = src(g.test)
+        elif any(pmatch(c, '?pm != ?fm', env) for c in cj):
+            facts['metadata'] = 'bdq' in env and any(pmatch(c, 'not ?bdq', env) for c in cj) and \
+                any(pmatch(c, 'not ?bsd', env) for c in cj) and len(cj) == 3
+            facts['why']['metadata'] = src(g.test)
+        elif pmatch(g.test, 'len(?pc) != len(?fc)', env):
+            facts['arity'] = True
+        else:
+            m = pmatch(g.test, '?pks != ?fks', env)
+            if m is not None:
+                a = first('?pks = set(?pk)', m)
+                b = first('?fks = set(?fk)', a) if a else None
+                if b is not None:
+                    facts['keys'] = True
+                    env = dict(env, pk=b['pk'], fk=b['fk'])
+    if 'pk' in env:
+        for x in stmts:
+            if isinstance(x, ast.If) and pmatch(x.test, '?bsd', env):
+                if first('?fc = [?fs[?k] for ?k in ?pk]', env, [y for b in x.body for y in ast.walk(b)
+                                                                 if isinstance(y, ast.stmt)]):
+                    facts['reorder'] = True
+    return facts
 
 
 @rule('P1', floor=30, title='the four prefix matchers compare exactly the attributes the prefix relation is defined on')
@@ -110,33 +176,31 @@ def p1(ctx):
                       f.loc, {'atoms': sorted(got)})
     # Python diagnostic walker
     mod = pkg.mod('optree.ops')
-    fn, info = _py_prefix_atoms(mod)
-    ctx.check('prefix_errors/type', info['type'] is not None and 'not both_standard_dict' in info['type'],
+    pf = _py_prefix_facts(mod)
+    fn = pf['fn']
+    ctx.check('prefix_errors/type', pf['type'],
               'prefix_errors: node types must be identical, except that the three standard dict kinds match each other',
-              'prefix_errors type test is `%s`' % info['type'], mod.loc(fn))
-    ctx.check('prefix_errors/keyset', info['keys'] is not None and '!=' in info['keys'],
-              'prefix_errors: dict nodes compare key *sets*', 'key test is `%s`' % info['keys'], mod.loc(fn))
-    ctx.check('prefix_errors/arity', info['arity'] is not None,
+              'prefix_errors type test is `%s`' % pf['why'].get('type'), mod.loc(fn))
+    ctx.check('prefix_errors/keyset', pf['keys'],
+              'prefix_errors: dict nodes compare key *sets*', 'no key-set comparison found', mod.loc(fn))
+    ctx.check('prefix_errors/arity', pf['arity'],
               'prefix_errors: number of children compared', 'no arity test', mod.loc(fn))
-    m = info['metadata'] or ''
-    ctx.check('prefix_errors/metadata', 'not both_deque' in m and 'not both_standard_dict' in m,
+    ctx.check('prefix_errors/metadata', pf['metadata'],
               'prefix_errors: metadata compared except deque maxlen and dict keys/factory',
               'prefix_errors metadata test is `%s`: deque maxlen / defaultdict factory would be '
-              'reported as a mismatch although flatten_up_to accepts them' % m, mod.loc(fn))
-    sd = mod.top_assign('STANDARD_DICT_TYPES')
-    ctx.check('prefix_errors/standard-dicts', sd is not None and
-              set(re.findall(r'\b(dict|OrderedDict|defaultdict)\b', src(sd))) == {'dict', 'OrderedDict', 'defaultdict'},
+              'reported as a mismatch although flatten_up_to accepts them (or a real mismatch is '
+              'ignored)' % pf['why'].get('metadata'), mod.loc(fn))
+    sd = pf['std']
+    if isinstance(sd, ast.Call) and call_name(sd) in ('frozenset', 'set', 'tuple') and len(sd.args) == 1:
+        sd = sd.args[0]
+    ctx.check('prefix_errors/standard-dicts', sd is not None and isinstance(sd, (ast.Tuple, ast.List, ast.Set)) and
+              {src(x) for x in sd.elts} == {'dict', 'OrderedDict', 'defaultdict'},
               'the standard dict family is {dict, OrderedDict, defaultdict}',
-              'STANDARD_DICT_TYPES is %s' % (src(sd) if sd is not None else None), mod.relpath + ':1')
-    both_deque = [s for s in walk(fn) if isinstance(s, ast.Assign) and is_name(s.targets[0], 'both_deque')]
-    ctx.check('prefix_errors/both-deque', bool(both_deque) and
-              src(both_deque[0].value) == 'prefix_tree_type is deque and full_tree_type is deque',
-              'both_deque is "both are exactly deque"', None, mod.loc(fn))
+              'the standard dict family is %s' % (src(sd) if sd is not None else None), mod.relpath + ':1')
+    ctx.check('prefix_errors/both-deque', pf['both_deque'],
+              'both_deque is "both are exactly deque"', 'no `<prefix type> is deque and <full type> is deque` flag', mod.loc(fn))
     # dict children are taken in the prefix's key order
-    reorder = [s for s in walk(fn) if isinstance(s, ast.Assign) and is_name(s.targets[0], 'full_tree_children')
-               and isinstance(s.value, ast.ListComp)]
-    ok = bool(reorder) and src(reorder[0].value) == '[full_subtree[k] for k in prefix_tree_keys]'
-    ctx.check('prefix_errors/dict-children-by-prefix-keys', ok,
+    ctx.check('prefix_errors/dict-children-by-prefix-keys', pf['reorder'],
               'prefix_errors pairs dict children by the prefix\'s keys',
               'prefix_errors does not re-read the full dict by the prefix\'s keys', mod.loc(fn))
     # FlattenUpTo iterates the treespec's keys and checks key-set equality first
